@@ -20,11 +20,13 @@ inductive Err where
   | outOfDate           -- BoundBranchOutOfDate
   | localRequiresBound  -- LocalRequiresBoundBranch
   | emptyBranch         -- nothing to uncommit (excluded input: the command refuses before calling uncommit)
+  | badDepth            -- more revisions to remove than the branch has (excluded input: the command refuses
+                        -- revno outside 1..old_revno; Python's `new_revno` would go negative)
   deriving DecidableEq, Repr
 
 def Err.toString : Err → String
   | .notPresent => "E:NotPresent" | .outOfDate => "E:OutOfDate"
-  | .localRequiresBound => "E:LocalRequiresBound" | .emptyBranch => "E:Empty"
+  | .localRequiresBound => "E:LocalRequiresBound" | .emptyBranch => "E:Empty" | .badDepth => "E:BadDepth"
 
 /-- tag name ↦ revision (names are numbers here) -/
 abbrev Tags := List (Nat × Rev)
@@ -116,7 +118,8 @@ def finish (g : Graph) (st : St) (old : Rev) (t : Tip) (pm : List Rev) (d : Nat)
 
 /-- `uncommit(branch, revno=old_revno - d + 1, tree=tree, local=…, keep_tags=…)`:
 `d ≥ 1` is the number of revisions removed (the command guarantees
-`1 ≤ revno ≤ old_revno`). -/
+`1 ≤ revno ≤ old_revno`; `d > old_revno` is an explicit error here, so that
+`st.br.revno - d` is never a truncated subtraction). -/
 def uncommit (g : Graph) (st : St) (d : Nat) (keepTags isLocal : Bool) : Except Err St :=
   if isLocal && st.master.isNone then .error .localRequiresBound
   else
@@ -124,11 +127,35 @@ def uncommit (g : Graph) (st : St) (d : Nat) (keepTags isLocal : Bool) : Except 
     | none => .error .emptyBranch
     | some old =>
       if outOfDate (masterFor isLocal st) st.br.tip then .error .outOfDate
+      else if st.br.revno < d then .error .badDepth
       else
         -- pending_merges = tree.get_parent_ids()[1:]
         match walk g old d st.parents.tail with
         | .error e => .error e
         | .ok (t, pm) => .ok (finish g st old t pm d keepTags isLocal)
+
+/-- `uncommit(branch, tree=None, …)`: no pending merges are read, the removed
+merges are not re-recorded anywhere (`parents = [new tip]`), so the tags are
+judged against the new tip alone; the tree's parent list is not touched -/
+def uncommitNoTree (g : Graph) (st : St) (d : Nat) (keepTags isLocal : Bool) : Except Err St :=
+  if isLocal && st.master.isNone then .error .localRequiresBound
+  else
+    match st.br.tip with
+    | none => .error .emptyBranch
+    | some old =>
+      if outOfDate (masterFor isLocal st) st.br.tip then .error .outOfDate
+      else if st.br.revno < d then .error .badDepth
+      else
+        match walk g old d [] with
+        | .error e => .error e
+        | .ok (t, _) => .ok { finish g st old t [] d keepTags isLocal with parents := st.parents }
+
+/-- `uncommit(…, dry_run=True)`: the same checks and the same walk (so the same
+exceptions), nothing is written -/
+def uncommitDry (g : Graph) (st : St) (d : Nat) (keepTags isLocal : Bool) : Except Err St :=
+  match uncommit g st d keepTags isLocal with
+  | .error e => .error e
+  | .ok _ => .ok st
 
 /-- the bookkeeping of a commit of the working tree: a new revision `r` whose
 parents are the tree's parents; branch (and master) tip and revno advance; the
@@ -137,6 +164,13 @@ def commit (g : Graph) (st : St) (r : Rev) : Graph × St :=
   ((r, st.parents) :: g,
    { br := { st.br with tip := some r, revno := st.br.revno + 1 },
      master := st.master.map fun m => { m with tip := some r, revno := m.revno + 1 },
+     parents := [r] })
+
+/-- `commit --local` in a bound branch: the master is not touched -/
+def commitLocal (g : Graph) (st : St) (r : Rev) : Graph × St :=
+  ((r, st.parents) :: g,
+   { br := { st.br with tip := some r, revno := st.br.revno + 1 },
+     master := st.master,
      parents := [r] })
 
 /-- the tree's parent list is what `set_parent_ids` leaves: the first parent is
